@@ -1091,3 +1091,67 @@ def run_domain_e7(chk, F, fs, tier, rule, keys):
             n += len(cells)
         chk.expect(rule, "%s@u64|e7-domain%s" % (key, sfx), prob is None, "%s: %s" % (key, prob),
                    sample={"fn": key, "cells": n, "method": "every MIR assert of the function (and its callees) decided on every cell of [0, 2^64-1]"})
+
+
+def _work_leneq(job):
+    """writer return = length function on every cell, one (code, parameter, endianness) configuration"""
+    fs, key, wpath, wenv, lpath, lenv, extra, hi = job
+    F = _F[fs]
+    try:
+        w = Run(F, key, F.body(wpath), wenv, extra, {}, receiver=True, hi=hi, refine_const=True)
+        l = Run(F, key, F.body(lpath), lenv, extra, {}, hi=hi, refine_const=True)
+    except Unsupported as e:
+        return key, "cannot be evaluated: %s" % e
+    except Exception as e:
+        return key, "internal error %r" % (e,)
+    for lo, hi_, a, b in overlay_s([cell_summary(c) for c in w.cells], [cell_summary(c) for c in l.cells]):
+        if hi_ > U64MAX - 1 and lo > U64MAX - 1:
+            continue
+        if a["status"] != "ok" or b["status"] != "ok":
+            if a["status"] != b["status"]:
+                return key, "for n in [%d, %d] one of writer / length function is undefined" % (lo, hi_)
+            continue
+        if not (is_const(a["ret"]) and is_const(b["ret"]) and a["ret"][2] == b["ret"][2]):
+            return key, "for n in [%d, %d] the writer returns %s and the length function %s" % (lo, hi_, a["ret"][2:4], b["ret"][2:4])
+    return key, None
+
+
+def len_eq_all_params(F, fs, code):
+    """-> (ok | None, text): len = write return on every value over the whole parameter range (fallback of the symbolic rule L3)"""
+    import multiprocessing as mp
+    _F[fs] = F
+    jobs = []
+    if code == "golomb":
+        okv, text = fields_all_params(F, fs, "golomb")
+        probs = []
+        for b in list(range(1, 65)) + [100, 127, 128, 129, 1000]:
+            probs += [p for p in _gcache[(fs, b)]["problems"] if "returns" in p or "bits and returns" in p or "not defined" in p or "affine" in p]
+        return (not probs), ("; ".join(probs[:2]) or "len = write return on every residue class for b in 1..=64 and 100, 127..129, 1000")
+    for e, en in ((BE, "be"), (LE, "le")):
+        if code == "minimal_binary":
+            for u in list(range(1, 131)) + [255, 256, 257, 1000, (1 << 32) - 1, (1 << 32), (1 << 63) + 5, (1 << 64) - 1]:
+                jobs.append((fs, "le.minimal_binary%d.%s" % (u, en), "codes::minimal_binary::MinimalBinaryWrite::write_minimal_binary", {"E": e},
+                             "codes::minimal_binary::len_minimal_binary", {}, (("u64", u),), u - 1))
+        elif code == "zeta":
+            for k in range(1, 64):
+                jobs.append((fs, "le.zeta%d.%s" % (k, en), "<B as codes::zeta::ZetaWriteParam<%s>>::write_zeta_param" % e, {"E": e, "USE_TABLE": False},
+                             "codes::zeta::len_zeta_param", {"USE_TABLE": False}, (("usize", k),), U64MAX))
+        elif code in ("pi", "exp_golomb"):
+            wp = "codes::pi::PiWrite::write_pi" if code == "pi" else "codes::exp_golomb::ExpGolombWrite::write_exp_golomb"
+            lp_ = "codes::pi::len_pi" if code == "pi" else "codes::exp_golomb::len_exp_golomb"
+            for k in range(0, 64):
+                jobs.append((fs, "le.%s%d.%s" % (code, k, en), wp, {"E": e}, lp_, {}, (("usize", k),), U64MAX))
+        elif code == "gamma":
+            jobs.append((fs, "le.gamma.%s" % en, "<B as codes::gamma::GammaWriteParam<%s>>::write_gamma_param" % e, {"E": e, "USE_TABLE": False},
+                         "codes::gamma::len_gamma_param", {"USE_TABLE": False}, (), U64MAX))
+        elif code == "delta":
+            jobs.append((fs, "le.delta.%s" % en, "<B as codes::delta::DeltaWriteParam<%s>>::write_delta_param" % e, {"E": e, "USE_DELTA_TABLE": False, "USE_GAMMA_TABLE": False},
+                         "codes::delta::len_delta_param", {"USE_DELTA_TABLE": False, "USE_GAMMA_TABLE": False}, (), U64MAX))
+        else:
+            return None, "no whole-range comparison for %s" % code
+    probs = []
+    with mp.get_context("fork").Pool(16) as pool:
+        for key, prob in pool.imap_unordered(_work_leneq, jobs, chunksize=2):
+            if prob:
+                probs.append("%s: %s" % (key, prob))
+    return (not probs), ("; ".join(probs[:2]) or "len = write return on every value for %d configurations (whole parameter range)" % len(jobs))
